@@ -43,6 +43,18 @@ func (e *Engine) newCtx(key string) *FuncCtx {
 		}
 		return true
 	})
+	// call ordinals per callee key (source order), for "at call K #n" clauses
+	c.callOrd = map[*ast.CallExpr]int{}
+	counts := map[string]int{}
+	ast.Inspect(fd.Body, func(x ast.Node) bool {
+		if ce, ok := x.(*ast.CallExpr); ok {
+			if k := e.calleeKeyOf(ce); k != "" {
+				counts[k]++
+				c.callOrd[ce] = counts[k]
+			}
+		}
+		return true
+	})
 	// address-taken struct locals live in the heap
 	ast.Inspect(fd.Body, func(x ast.Node) bool {
 		switch s := x.(type) {
@@ -410,4 +422,69 @@ func (c *FuncCtx) execIteratorCall(st *State, call *ast.CallExpr) ([]outcome, bo
 
 func (c *FuncCtx) execRangeMap(st *State, x *ast.RangeStmt, coll *Val, li *loopInfo, inv, dec []*Clause) []outcome {
 	return c.execRangeMapImpl(st, x, coll, li, inv)
+}
+
+// calleeKeyOf: the contract key a call expression resolves to ("" if none).
+func (e *Engine) calleeKeyOf(ce *ast.CallExpr) string {
+	switch f := ast.Unparen(ce.Fun).(type) {
+	case *ast.Ident:
+		if fn, ok := e.info.Uses[f].(*types.Func); ok {
+			return e.fobjs[fn]
+		}
+	case *ast.SelectorExpr:
+		if id, ok := f.X.(*ast.Ident); ok {
+			if pn, ok := e.info.Uses[id].(*types.PkgName); ok {
+				return pn.Imported().Name() + "." + f.Sel.Name
+			}
+		}
+		if sel, ok := e.info.Selections[f]; ok {
+			if fn, ok := sel.Obj().(*types.Func); ok {
+				if k, ok := e.fobjs[fn]; ok {
+					return k
+				}
+			}
+			return e.externalKey(sel)
+		}
+	}
+	return ""
+}
+
+// atCall runs the "at call K #n" clauses attached to this call site.
+func (c *FuncCtx) atCall(st *State, x *ast.CallExpr) {
+	if c.contract == nil || c.inSpec(st) || c.inlineDepth > 0 {
+		return
+	}
+	n, ok := c.callOrd[x]
+	if !ok {
+		return
+	}
+	key := c.eng.calleeKeyOf(x)
+	for _, cl := range c.contract.Clauses {
+		if cl.Kind == "at" && cl.Name == key && cl.Loop == n {
+			v := c.evalSpecAt(st, cl.Expr, x.Pos(), c.ghostEnv())
+			if v.S != tTrue {
+				c.oblige(st, "assert", fmt.Sprintf("assert@%s#%d", key, n), x.Pos(), v.S, cl.Tags, "at call "+key+": "+cl.Text)
+				st.assume(v.S)
+			}
+		}
+	}
+}
+
+func (c *FuncCtx) ghostEnv() map[string]*Val {
+	env := map[string]*Val{}
+	for _, g := range c.ghostStack {
+		for k, v := range g {
+			env[k] = v
+		}
+	}
+	if c.contract != nil {
+		for _, cl := range c.contract.clauses("let") {
+			for _, nm := range splitTop(cl.Name, ',') {
+				if v, ok := c.specEnv[nm]; ok {
+					env[nm] = v
+				}
+			}
+		}
+	}
+	return env
 }
